@@ -31,7 +31,7 @@ NOSCHED static Slot* find_slot(void* p) {
 NOSCHED static void* t_malloc(size_t n) {
   long k = ++g_calls;
   if (k == g_failat) { g_fail_tid = vsim::active() ? vsim::self() : 0; return nullptr; }
-  void* p = aligned_alloc(64, ((n ? n : 1) + 63) & ~(size_t)63);
+  void* p = sd::FixedHeap::grab((n ? n : 1));   // fixed-address backing store (blocks are never recycled here)
   if (p) { Slot* s = find_slot(p); if (s) { s->p = p; s->n = n; s->state = 1; g_nlive++; } }
   return p;
 }
